@@ -38,7 +38,6 @@ def components():
     enc("SPC(3)", spec("SingleParityCheckCodeEncoder", dimension=3))
     enc("Repetition(3)", spec("RepetitionCodeEncoder", repetition_factor=3))
     enc("Golay(23,12)", spec("GolayCodeEncoder"))
-
     def dec(name, s, mk, oned=True, blocks=True, fixed_second=False):
         def make():
             e = quiet(build_code, s)
@@ -50,6 +49,23 @@ def components():
     dec("BruteForceML@Hamming(7,4)", spec("HammingCodeEncoder", mu=3), D.BruteForceMLDecoder)
     dec("BerlekampMassey@BCH(7,4)", spec("BCHCodeEncoder", mu=3, delta=3), D.BerlekampMasseyDecoder, fixed_second=True)
     dec("ReedMuller(hard)@RM(1,3)", spec("ReedMullerCodeEncoder", order=1, length_param=3), D.ReedMullerDecoder)
+    if TIER == "thorough":
+        # every code object of the C01 catalogue up to n = 16: encoder purity, and syndrome-decoder purity for the small ones
+        from ..catalog import code_specs, cfg
+        seen = set()
+        for s in code_specs():
+            c = cfg(s)
+            if c in seen:
+                continue
+            seen.add(c)
+            try:
+                e = quiet(build_code, s)
+            except Exception:  # noqa: BLE001
+                continue
+            if e.code_length <= 16 and e.code_dimension <= 8:
+                enc(c, s)
+                if e.code_length - e.code_dimension <= 6 and e.code_length <= 10 and len([k for k in out if k.startswith("decoder Syndrome@")]) < 40:
+                    dec(f"Syndrome@{c}", s, D.SyndromeLookupDecoder)
 
     def hinv():
         e = build_code(spec("HammingCodeEncoder", mu=3))
